@@ -91,6 +91,9 @@ CLAIMED['C05'] = ("UPDATE / DELETE statements parsed by the real parser, given a
 CLAIMED['C06'] = ("for 880 statement texts (22 templates x tables sh/lk/gl/un x five spellings of the name x session with/without a current database) the real SessionExecutor.preBuildUnshardPlan never answers 'unsharded' for a statement that the proxy's own full analysis (real parser + plan.Checker over the real router) finds to involve a table with a shard rule",
     "the texts are enumerated by the engine as path decisions, there is no symbolic byte in them (the tokenizer works on Go strings through strings.FieldsFunc / ToLower, which the engine runs on concrete text only), so no SMT query is discharged: within this bound the check is an exhaustive run of the real code over the template language; texts outside the templates (deeper nesting, other keywords, multi-statement texts) are outside the bound")
 
+CLAIMED['C04'] = ("for 16 statements over one or two global tables (INSERT / REPLACE / UPDATE / DELETE / SELECT incl. a locking read, joins, aliases, schema-qualified names) in four global-table layouts (explicit database ranges or lists, implicit database with one or two location entries per slice) the plan built by the real parser + BuildPlan sends a write exactly once to every physical copy (slice, database), a read to exactly one copy, never to anything that is not a copy, and rewrites a schema-qualified name to the copy's database",
+    "statements and layouts are enumerated by the engine as path decisions (no symbolic data, no SMT query: the subject is the statement/rule structure); the random choice of the copy for reads is whatever math/rand yields in the run (every value is one copy); execution and result merging are not covered; joins of a global with a sharded table belong to C01/C02")
+
 NA_REASON = "check not built yet (work in progress; see DESIGN.md section 3 for the planned harness)"
 NA = {}
 
